@@ -46,6 +46,11 @@ func envOperator(_ *dataTreeNavigator, context Context, expressionNode *Expressi
 		}
 
 	}
+	if context.MatchingNodes.Len() > 0 {
+		// evaluated for a node of some document: a result of that document (and file)
+		current := context.MatchingNodes.Front().Value.(*CandidateNode)
+		node.document, node.filename, node.fileIndex = current.GetDocument(), current.GetFilename(), current.GetFileIndex()
+	}
 	log.Debug("ENV tag", node.Tag)
 	log.Debug("ENV value", node.Value)
 	log.Debug("ENV Kind", node.Kind)
